@@ -29,7 +29,7 @@ const (
 )
 
 // entry points (script-facing ways a text reaches the library)
-var entryNames = []string{"EvalString", "LoadString+Run", "ParseTokens", "ParseFile-like", "ReplLine", "macexpand", "Duplicate+EvalString"}
+var entryNames = []string{"EvalString", "LoadString+Run", "ParseTokens", "ParseFile-like", "ReplLine", "macexpand", "Duplicate+EvalString", "EvalString+follow-ups"}
 
 const (
 	EEval = iota
@@ -39,6 +39,7 @@ const (
 	ERepl
 	EMacexpand
 	EApply
+	EFollow
 	nEntries
 )
 
@@ -69,6 +70,11 @@ func siteOfPanic() string {
 	return "?"
 }
 
+// the follow-up battery of EFollow; followStage names the follow-up that was running when a panic hit
+var followUps = []string{"(def zz1 1)", "(let [zz2 2] (+ zz1 zz2))", "(defn zz3 [a] (+ a 1)) (zz3 1)", "(str (list 1 [2] (hash a:3)))",
+	"#clear", "(def zz4 1)", "(defn zz5 [] (fn [] zz4)) ((zz5))", "(for [(def zi 0) (< zi 2) (set zi (+ zi 1))] zi)"}
+var followStage string
+
 func guard(f func() string) (obs string, pi *panicInfo) {
 	defer func() {
 		if r := recover(); r != nil {
@@ -77,6 +83,10 @@ func guard(f func() string) (obs string, pi *panicInfo) {
 				msg = msg[:160]
 			}
 			msg = strings.ReplaceAll(strings.ReplaceAll(msg, "\n", " "), "\t", " ")
+			if followStage != "" {
+				msg = "(in the follow-up evaluation " + followStage + " on the same interpreter) " + msg
+				followStage = ""
+			}
 			pi = &panicInfo{site: siteOfPanic(), msg: msg}
 			obs = ObsPanic
 		}
@@ -162,6 +172,27 @@ func runEntry(env *zygo.Zlisp, e int, src string, budget int64) (string, *panicI
 		case EMacexpand:
 			_, err := env.EvalString("(macexpand " + src + "\n)")
 			return classifyErr(err)
+		case EFollow:
+			// the text, then a fixed battery on the SAME interpreter (as the next lines of a session),
+			// also after Clear(): a panic or hang of a LATER evaluation belongs to the history
+			_, err := env.EvalString(src)
+			first := classifyErr(err)
+			if err != nil {
+				env.Clear()
+			}
+			for _, f := range followUps {
+				if f == "#clear" {
+					env.VerifParser().Reset()
+					env.Clear()
+					continue
+				}
+				followStage = f
+				if _, e := env.EvalString(f); e != nil {
+					env.Clear()
+				}
+			}
+			followStage = ""
+			return first
 		case EApply:
 			// a duplicate interpreter: same globals, brand-new stacks (stale stack slots hide empty-slot bugs)
 			d := env.Duplicate()
@@ -441,11 +472,15 @@ type anomaly struct {
 func entriesFor(stream string) []int {
 	switch {
 	case stream == "builtins":
-		return []int{EEval, EApply}
+		return []int{EEval, EApply, EFollow}
+	case stream == "programs":
+		return []int{EEval, ELoadRun, ERepl, EApply, EFollow}
+	case strings.HasPrefix(stream, "tok"):
+		return []int{EEval, ELoadRun, EParse, EParseFile, ERepl, EMacexpand, EApply}
 	case stream == "specials":
 		return []int{EEval}
 	}
-	return []int{EEval, ELoadRun, EParse, EParseFile, ERepl, EMacexpand, EApply}
+	return []int{EEval, ELoadRun, EParse, EParseFile, ERepl, EMacexpand, EApply, EFollow}
 }
 
 func workerMain(st Stream, from, to int, progressPath, resultPath string, budget int64, only int, perInputTimeout time.Duration) {
